@@ -42,10 +42,16 @@ class Gen:
 
     # -- helpers -------------------------------------------------------------------------------------
     def names(self):
-        return self.g.get_node_names()
+        try:
+            return self.g.get_node_names()
+        except Exception:  # noqa: BLE001 - a broken implementation must not stop generation
+            return []
 
     def edges(self):
-        return [(e.source.identifier, e.destination.identifier, impl.ety(e)) for e in self.g.get_edges()]
+        try:
+            return [(e.source.identifier, e.destination.identifier, impl.ety(e)) for e in self.g.get_edges()]
+        except Exception:  # noqa: BLE001
+            return []
 
     def any_name(self):
         r = self.r
@@ -135,7 +141,8 @@ class Gen:
             p = self.cycle_closing_pair()
             if p:
                 s, d = p
-                return ['add_edge', s, d, '->' if r.random() < 0.85 else self.ety(), self.meta(), validate]
+                return ['add_edge', s, d, '->' if r.random() < 0.85 else self.ety(), self.meta(),
+                        validate and r.random() < 0.85]
             s, d = self.any_name(), self.any_name()
         elif x < 0.42:           # a non-directed edge that would close a cycle if it were directed
             p = self.cycle_closing_pair()
@@ -213,7 +220,7 @@ class Gen:
     def gen_replace_node(self):
         r = self.r
         n = self.existing() if r.random() < 0.9 else self.any_name()
-        vt = r.choice(['default', 'default', None, r.choice(VTYPES)])
+        vt = r.choice(['default', 'default', None, r.choice(VTYPES), r.choice(VTYPES), 'BAD_STR', 'BAD_OBJ'])
         m = None if r.random() < 0.5 else self.meta()
         x = r.random()
         if self.cls == 'ts' and x < 0.4:
@@ -244,10 +251,23 @@ class Gen:
             return ['ts_add_node', name, None, l, 'unspecified', {}]
         if x < 0.45:
             return ['add_node_obj', name, r.choice(VTYPES), self.meta()]
-        return ['add_node', name, r.choice(VTYPES), self.meta()]
+        return ['add_node', name, r.choice(VTYPES) if r.random() < 0.93 else r.choice(['BAD_STR', 'BAD_OBJ']), self.meta()]
 
     def gen_bulk(self):
         r = self.r
+        if r.random() < 0.3:
+            p = self.cycle_closing_pair()
+            if p:
+                s, d = p
+                y = r.random()
+                tail = [self.any_name() for _ in range(r.randint(1, 2))]
+                if y < 0.4:
+                    return ['add_path', [s, d] + tail, r.random() < 0.9]
+                if y < 0.6:
+                    return ['add_paths', [[self.any_name(), s, d] + tail, [self.any_name(), self.any_name()]]]
+                if y < 0.8:
+                    return ['add_edges_from', [[s, d]] + [[self.any_name(), self.any_name()] for _ in range(2)], r.random() < 0.9]
+                return ['add_fully_connected', [s], [d] + tail]
         x = r.random()
         k = r.randint(1, 4)
         if x < 0.2:
